@@ -3,6 +3,7 @@
 -/
 import StathamModel.Orderer
 import StathamModel.Lemmas.ListAux
+import StathamModel.Lemmas.OrdererComplete
 import StathamModel.Tie
 namespace Statham.C11
 open Statham
@@ -171,6 +172,48 @@ theorem C11_order_sound (g : ClassGraph) (out : List String) (h : ordererGraph g
     refine ⟨by rw [← hxe.1]; exact mem_removeDups.mp hx, fun d hd => hdeps d ?_⟩
     rw [← hxe.2, hxe.1]; exact hd
 
+/-! ### Completeness: every class is declared -/
+
+theorem subset_of_nodup_length {out ks : List String} (hn : out.Nodup) (hsub : out ⊆ ks) (hlen : out.length = ks.length) :
+    ks ⊆ out := by
+  intro k hk
+  refine Classical.byContradiction fun hno => ?_
+  have hsub' : out ⊆ ks.erase k := by
+    intro x hx
+    have hxk : x ≠ k := fun e => hno (e ▸ hx)
+    exact (List.mem_erase_of_ne hxk).mpr (hsub hx)
+  have := List.Nodup.length_le_of_subset hn hsub'
+  rw [List.length_erase] at this
+  simp only [hk, if_true] at this
+  have : 0 < ks.length := List.length_pos_of_mem hk
+  omega
+
+/-- **The order is complete**: when the dependency table is closed (each list holds exactly the descendant classes:
+    transitively closed, irreflexive, all of them classes of the graph — what `depTable` computes for an acyclic
+    graph, compared with the real orderer on every generated graph), the orderer refuses nothing and declares
+    every class of the graph exactly once. -/
+theorem C11_complete (g : ClassGraph) (h : ClosedTable (depTable g)) :
+    ∃ out, ordererGraph g = .ok out ∧ out.Nodup ∧ ∀ n, n ∈ out ↔ n ∈ g.order := by
+  have hnocycle : (depTable g).any (fun e => e.2.contains e.1) = false := by
+    rw [Bool.eq_false_iff]
+    intro hc
+    obtain ⟨e, he, hce⟩ := List.any_eq_true.mp hc
+    exact h.irrefl e he (by simpa using hce)
+  refine ⟨(emitAll (depTable g).length (depTable g)).1, ?_, emitAll_nodup _ _, fun n => ?_⟩
+  · unfold ordererGraph
+    rw [if_neg (by rw [hnocycle]; exact Bool.false_ne_true)]
+  · have hcomp := emitAll_complete (depTable g).length (depTable g) h (Nat.le_refl _)
+    have hkeys : ∀ x, x ∈ (emitAll (depTable g).length (depTable g)).1 → x ∈ (depTable g).map (·.1) :=
+      fun x hx => emitAll_keys _ _ x hx
+    have hsub := subset_of_nodup_length (emitAll_nodup _ _) hkeys (by rw [hcomp.2, List.length_map])
+    have hkeyorder : ∀ x, x ∈ (depTable g).map (·.1) ↔ x ∈ g.order := by
+      intro x
+      unfold depTable
+      simp only [List.map_map, Function.comp_def, List.map_id', mem_removeDups]
+    constructor
+    · intro hn; exact (hkeyorder n).mp (hkeys n hn)
+    · intro hn; exact hsub ((hkeyorder n).mpr hn)
+
 /-! ### evaluated in the kernel -/
 
 def diamond : ClassGraph :=
@@ -183,6 +226,10 @@ def diamond : ClassGraph :=
 
 example : (match ordererGraph diamond with | .ok l => l == ["D", "B", "C", "A"] | _ => false) = true := by
   decide +kernel
+
+/-- non-vacuity of `C11_complete`: the diamond's table is closed -/
+example : ClosedTable (depTable diamond) :=
+  ⟨by decide +kernel, by decide +kernel, by decide +kernel, by decide +kernel, by decide +kernel⟩
 
 def mutualCycle : ClassGraph :=
   { order := ["Root", "Shelf", "Box"],
